@@ -34,6 +34,10 @@ func (handlerSelf *HandlerDef) Post(fn func()) {
 	}
 	verifAt("handler.Post.checked")
 
+	// Close() may close the channel at any moment(even while this send is blocked): drop the function then
+	defer func() {
+		recover()
+	}()
 	handlerSelf.ch <- fn
 }
 
